@@ -383,11 +383,13 @@ def stopping_rule(ctx, rid):
     f = prog.need_func(U + ".estimate_from_repeats")
     g = build_cfg(f.node)
     ctx.touch(f, g)
-    heads = [n for n in g.nodes if n.kind == "for" and norm(n.ast.iter) == "repeats"]
+    _at = __import__("xyzsa.util", fromlist=["x"]).assignments_to
+    counters = {n_.ast.targets[0].id for n_ in g.nodes if n_.kind == "stmt" and isinstance(n_.ast, ast.Assign) and isinstance(n_.ast.targets[0], ast.Name) and norm(n_.ast.value) == "itertools.count()"}
+    heads = [n for n in g.nodes if n.kind == "for" and (norm(n.ast.iter) in counters or norm(n.ast.iter) == "itertools.count()")]
     need(len(heads) == 1, "anchor lost: sampling loop")
     H = heads[0]
-    d = single_def(f, "repeats", g)
-    first = [v for _, v in __import__("xyzsa.util", fromlist=["x"]).assignments_to(f, "repeats", g) if v is not None and norm(v) == "itertools.count()"]
+    REP = norm(H.ast.iter)
+    first = [v for _, v in _at(f, REP, g) if v is not None and norm(v) == "itertools.count()"] or ([H.ast.iter] if REP == "itertools.count()" else [])
     need(first, "idiom changed: repeats is not itertools.count()")
     ivar = norm(H.ast.target)
     lp = H.ast
